@@ -6,6 +6,7 @@ import (
 	"os/exec"
 	"path/filepath"
 	"strings"
+	"time"
 
 	"verif/lib"
 
@@ -13,6 +14,10 @@ import (
 )
 
 func init() { checks["C09"] = c09 }
+
+// c09Clocks: the caller's clock varies from step to step: one instant in two time zones, the zero instant, another instant.
+var c09Clocks = []lib.FixedClock{lib.Epoch2000, {T: lib.Epoch2000.T.In(time.FixedZone("", 2*3600))}, {T: time.Time{}}, {T: time.Date(2021, time.March, 14, 9, 26, 53, 0, time.FixedZone("", 5*3600+1800))},
+	{T: lib.Epoch2000.T.In(time.FixedZone("", -5*3600))}}
 
 func c09HugeDoc(n int) string {
 	g := lib.NewGraph()
@@ -94,18 +99,33 @@ func c09(tier string) {
 	// fresh-process references, cached on disk per (profile, doc) across workers of this run
 	refDir := filepath.Join(lib.OutRoot(), "out", "c09-ref", fmt.Sprintf("seed%d", ctx.Seed))
 	_ = os.MkdirAll(refDir, 0o755)
+	// documents whose context is a file of its own: one that is there, one that is missing (the same files for the
+	// workers and the fresh reference processes)
+	{
+		gk := c05Graph(lib.CaseRand(ctx.Seed, 9, 300))
+		ctxFile := filepath.Join(refDir, "context.jsonld")
+		okDoc, ctxText := gk.ContextByReference(ctxFile, "reference")
+		impDoc, _ := gk.ContextByReference(ctxFile, "import")
+		missingDoc, _ := gk.ContextByReference(filepath.Join(refDir, "no-such-context.jsonld"), "reference")
+		tmpf := ctxFile + fmt.Sprintf(".%d", os.Getpid())
+		_ = os.WriteFile(tmpf, []byte(ctxText), 0o644)
+		_ = os.Rename(tmpf, ctxFile)
+		for k := range defs {
+			defs[k].docs = append(defs[k].docs, okDoc, missingDoc, impDoc, missingDoc)
+		}
+	}
 	cfgs := []config.ReportConfiguration{config.DefaultReportConfiguration(), {IncludeReportCreationTime: false}, {IncludeReportCreationTime: true, ReportSchemaIri: "urn:custom:report", LexicalSchemaIri: ""},
 		{IncludeReportCreationTime: false, ReportSchemaIri: "", LexicalSchemaIri: "http://lexical.example/schema"}}
-	cfgArg := func(ci int) string {
+	cfgArg := func(ci, ki int) string {
 		c := cfgs[ci]
 		inc := "0"
 		if c.IncludeReportCreationTime {
 			inc = "1"
 		}
-		return inc + "|" + c.ReportSchemaIri + "|" + c.LexicalSchemaIri
+		return inc + "|" + c.ReportSchemaIri + "|" + c.LexicalSchemaIri + "|" + fmt.Sprint(ki)
 	}
-	fresh := func(pi, di, ci int) (string, bool) {
-		key := filepath.Join(refDir, fmt.Sprintf("%x-%x-%d.ref", hash(defs[pi].text), hash(defs[pi].docs[di]), ci))
+	fresh := func(pi, di, ci, ki int) (string, bool) {
+		key := filepath.Join(refDir, fmt.Sprintf("%x-%x-%d-%d.ref", hash(defs[pi].text), hash(defs[pi].docs[di]), ci, ki))
 		if b, err := os.ReadFile(key); err == nil {
 			return string(b), true
 		}
@@ -113,7 +133,7 @@ func c09(tier string) {
 		_ = os.WriteFile(pf, []byte(defs[pi].text), 0o644)
 		_ = os.WriteFile(df, []byte(defs[pi].docs[di]), 0o644)
 		cmd := exec.Command(self, "child", "report", pf, df)
-		cmd.Env = append(os.Environ(), "VERIF_CHILD_CFG="+cfgArg(ci))
+		cmd.Env = append(os.Environ(), "VERIF_CHILD_CFG="+cfgArg(ci, ki))
 		out, err := cmd.Output()
 		if err != nil {
 			return "", false
@@ -195,7 +215,12 @@ func c09(tier string) {
 				ctx.Count("steps_under_non_default_report_configuration", 1)
 			}
 			ctx.Begin(fmt.Sprintf("history %d step %d after %s", h, s, strings.Join(trace, " ")), map[string]string{"profile": def.text, "data": def.docs[di]})
-			o := lib.ValidateCompiledCfg(cp.Q, def.docs[di], nil, lib.Epoch2000, cfgs[ci])
+			ki := 0
+			if r.Intn(3) == 0 {
+				ki = r.Intn(len(c09Clocks)) // the same instant in another zone right after it in UTC, the zero instant ...
+				ctx.Count("steps_under_another_clock", 1)
+			}
+			o := lib.ValidateCompiledCfg(cp.Q, def.docs[di], nil, c09Clocks[ki], cfgs[ci])
 			ctx.End()
 			if fault != "" {
 				os.Unsetenv("ACV_VERIF_FAULT")
@@ -209,7 +234,7 @@ func c09(tier string) {
 				continue
 			}
 			trace = append(trace, fmt.Sprintf("d%d", di))
-			want, ok := fresh(pi, di, ci)
+			want, ok := fresh(pi, di, ci, ki)
 			if !ok {
 				ctx.Inconclusive("reference process failed")
 				return
@@ -247,7 +272,7 @@ func c09(tier string) {
 		}
 		// the profile text, validated in this same process after the history, gives the fresh result as well
 		di := r.Intn(len(def.docs))
-		if want, ok := fresh(pi, di, 0); ok {
+		if want, ok := fresh(pi, di, 0, 0); ok {
 			ctx.Begin(fmt.Sprintf("history %d: profile text after %s", h, strings.Join(trace, " ")), map[string]string{"profile": def.text, "data": def.docs[di]})
 			o := lib.Validate(def.text, def.docs[di])
 			ctx.End()
